@@ -36,12 +36,20 @@ def _piece_matches(ctx, R, piece, boxes, tag, what):
 @st.composite
 def _split_cases(draw, tier):
     big = tier == "thorough"
-    d = draw(gen.spline(kinds=("curve", "surface"), max_p=5 if big else 4, max_extra=5 if big else 4,
+    d = draw(gen.spline(ranges=("far",), kinds=("curve", "surface"), max_p=5 if big else 4, max_extra=5 if big else 4,
                         affine_range="maybe", normalize="maybe", long=True))
     pdim = len(d["degree"])
-    return {"defn": d, "dir": draw(st.integers(0, pdim - 1)),
-            "where": draw(st.one_of(gen.param_desc(), gen.param_desc(), st.just(["start"]), st.just(["end"]), st.just(["zero", 0, 0]))),
-            "read": draw(st.booleans()), "binsearch": draw(st.integers(0, 3)) == 0}
+    c = {"defn": d, "dir": draw(st.integers(0, pdim - 1)),
+         "where": draw(st.one_of(gen.param_desc(), gen.param_desc(), st.just(["start"]), st.just(["end"]), st.just(["zero", 0, 0]))),
+         "read": draw(st.booleans()), "binsearch": draw(st.integers(0, 3)) == 0}
+    if c["where"][0] == "zero" and not d.get("long") and draw(st.booleans()):
+        # a shape kept in its own parameter range, which has 0.0 strictly inside in the direction of the split
+        k = c["dir"]
+        kv, p, n = d["kv"][k], d["degree"][k], d["size"][k]
+        shift = kv[p] + (kv[n] - kv[p]) * draw(st.sampled_from([0.25, 0.375, 0.5]))
+        d["kv"][k] = [x - shift for x in kv]
+        d["normalize"] = False
+    return c
 
 
 def _sampled_before(obj, mode):
@@ -78,6 +86,8 @@ def check_split(case, ctx):
     k = case["dir"]
     kvs, szs = build.kvs_of(obj), build.sizes_of(obj)
     where = case["where"]
+    if where[0] == "edge":
+        where = ["in"] + list(where[1:3])          # (a split a hair's breadth from the end of the domain is a split at the end for the library)
     if where[0] == "near":
         # splitting inserts knots: stay 2^-18 away from existing knots (the library identifies knots closer than 1e-7)
         where = list(where[:4]) + [2.0 ** -18]
